@@ -16,4 +16,11 @@ CONSTANTS
   Shapes = TRUE
   SwapMod = 32
   RestMod = 64
+  GModR2 = 1
+  GModR3 = 16
+  GModC2 = 4
+  KC3 = 1500
+  GModC3 = 2
+  KR4 = 400
+  GModR4 = 4
 INVARIANTS TypeOK Contract Emit
